@@ -7,7 +7,7 @@ CONSTANTS
  Safe = FALSE
  KeepN = 1
  MaxEp = 6
- MaxSid = 4
+ MaxSid = 5
  WithReader = FALSE
  WithCopy = TRUE
  WithMerger = TRUE
@@ -15,11 +15,11 @@ CONSTANTS
  WithMemMerge = FALSE
  MaxMergeInputs = 2
  AsyncRelease = FALSE
-  WithMergeFail = FALSE
- BuilderBase = FALSE
- CopySchedById = FALSE
+ WithMergeFail = FALSE
+ BuilderBase = TRUE
+ CopySchedById = TRUE
  MaxOpens = 1
 CONSTRAINT Bound
-INVARIANTS RootIsReplay HeldAreReplays BoltFilesOnDisk RootFilesOnDisk CopyFilesOnDisk CopyIsPrefix
+INVARIANTS RootIsReplay UniqueLive HeldAreReplays EveryBoltIsAState Durable NewestLoads RollbackOK BoltFilesOnDisk RootFilesOnDisk RootFilesProtected CopyFilesOnDisk CopyIsPrefix NoOrphansWhenQuiescent
 PROPERTIES LayoutStutters ReaderStable
 CHECK_DEADLOCK FALSE
